@@ -278,6 +278,14 @@ fn trace_case(cfg: &Cfg, cursors: &[Cursor], input: &str, out: &mut String) {
     out.push_str(&sink.lock().unwrap());
     writeln!(out, "OUT {}", hex(replica_out.as_bytes())).unwrap();
     writeln!(out, "OUTCURSORS {}", fmt_cursors(&cs)).unwrap();
+    // the output re-scanned by the real lexer (C02)
+    {
+        let re = DelphiLexer {}.lex(&replica_out);
+        writeln!(out, "RELEX {}", re.len()).unwrap();
+        for t in &re {
+            writeln!(out, "x {} {} {:?}", t.get_leading_whitespace().len(), t.get_content().len(), t.get_token_type()).unwrap();
+        }
+    }
     // the real thing
     let real = make_formatter(&cfg.config());
     let mut cs2: Vec<Cursor> = cursors.to_vec();
